@@ -75,14 +75,14 @@ fn compositions(n: usize, maxparts: usize) -> Vec<Vec<usize>> {
     out
 }
 
-fn write_table(dir: &PathBuf, rows: &[Row], parts: &[usize], rg: usize, stats: EnabledStatistics) {
+fn write_table(dir: &PathBuf, rows: &[Row], parts: &[usize], rg: usize, stats: &[EnabledStatistics]) {
     let _ = std::fs::remove_dir_all(dir);
     std::fs::create_dir_all(dir).unwrap();
     let mut lo = 0;
     for (f, &p) in parts.iter().enumerate() {
         let b = batch(&rows[lo..lo + p]);
         lo += p;
-        let props = WriterProperties::builder().set_max_row_group_row_count(Some(rg.max(1))).set_statistics_enabled(stats).build();
+        let props = WriterProperties::builder().set_max_row_group_row_count(Some(rg.max(1))).set_statistics_enabled(stats[f % stats.len()]).build();
         let file = std::fs::File::create(dir.join(format!("part-{f:02}.parquet"))).unwrap();
         let mut w = ArrowWriter::try_new(file, schema(), Some(props)).unwrap();
         w.write(&b).unwrap();
@@ -147,10 +147,19 @@ pub fn run(quick: bool, seed: u64, work: &str) -> Out {
                         let comps = if n <= 4 { compositions(n, 3) } else { vec![vec![n], vec![n / 2, n - n / 2], vec![1, n - 2, 1]] };
                         for parts in comps {
                             for rg in [1usize, 2, 1000] {
-                                for stats in [EnabledStatistics::Chunk, EnabledStatistics::Page, EnabledStatistics::None] {
-                                    if matches!(stats, EnabledStatistics::Page | EnabledStatistics::None) && (rg != 2 || quick && ti % 4 != 0) {
-                                        continue;
+                                // writer statistics per FILE: uniform (chunk / page / none) and, for multi-file tables, every mix of files with and without statistics
+                                let mut stat_sets: Vec<Vec<EnabledStatistics>> = vec![vec![EnabledStatistics::Chunk]];
+                                if rg == 2 && !(quick && ti % 4 != 0) {
+                                    stat_sets.push(vec![EnabledStatistics::Page]);
+                                    stat_sets.push(vec![EnabledStatistics::None]);
+                                }
+                                if parts.len() >= 2 && (rg == 2 || !quick) {
+                                    for mask in 1..(1u32 << parts.len()) - 1 {
+                                        stat_sets.push((0..parts.len()).map(|f| if mask >> f & 1 == 1 { EnabledStatistics::None } else { EnabledStatistics::Chunk }).collect());
                                     }
+                                }
+                                for stats in stat_sets {
+                                    let stats = &stats[..];
                                     let dir = base.join(format!("t{ti}"));
                                     write_table(&dir, &rows, &parts, rg, stats);
                                     let r = std::panic::catch_unwind(std::panic::AssertUnwindSafe(|| {
@@ -185,7 +194,7 @@ pub fn run(quick: bool, seed: u64, work: &str) -> Out {
     o
 }
 
-fn one(rt: &tokio::runtime::Runtime, dir: &PathBuf, rows: &[Row], parts: &[usize], rg: usize, stats: EnabledStatistics, o: &mut Out) {
+fn one(rt: &tokio::runtime::Runtime, dir: &PathBuf, rows: &[Row], parts: &[usize], rg: usize, stats: &[EnabledStatistics], o: &mut Out) {
     let desc = json!({"rows": rows.iter().map(|r| json!([r.0, r.1, r.2, r.3.map(|x| format!("{x:?}")), r.4])).collect::<Vec<_>>(), "files": parts, "row_group_size": rg, "writer_statistics": format!("{stats:?}")});
     let mk = |why: String| json!({"property": "C18", "kind": "native", "table": desc.clone(), "why": why});
     o.evaluations += 1;
